@@ -97,7 +97,21 @@ class TSBurstDetector(Elaboratable):
         ctrl  = self.sink.ctrl
 
 
-        def advance_on_match(count, target_ctrl=0b0000, fail_state="NONE_DETECTED"):
+        def restart_on_mismatch():
+            """ Handles a word that doesn't continue the set we're in the middle of. """
+
+            # Our run of consecutive sets is broken...
+            m.d.ss += consecutive_set_count.eq(0)
+
+            # ... but the offending word may itself be the first word of a new set; in which case
+            # we mustn't skip it (or the word after it).
+            with m.If((data == self._set_data[0]) & (ctrl == self._first_word_ctrl)):
+                m.next = "1_DETECTED"
+            with m.Else():
+                m.next = "WAIT_FOR_FIRST"
+
+
+        def advance_on_match(count, target_ctrl=0b0000, fail_state=None):
             data_matches = (data == self._set_data[count])
             ctrl_matches = (ctrl == target_ctrl)
 
@@ -108,7 +122,10 @@ class TSBurstDetector(Elaboratable):
                 with m.If(data_matches & ctrl_matches):
                     m.next = f"{count + 1}_DETECTED"
                 with m.Else():
-                    m.next = fail_state
+                    if fail_state is None:
+                        restart_on_mismatch()
+                    else:
+                        m.next = fail_state
 
 
         last_state_number = len(self._set_data)
@@ -154,7 +171,7 @@ class TSBurstDetector(Elaboratable):
                             ]
 
                     with m.Else():
-                        m.next = "NONE_DETECTED"
+                        restart_on_mismatch()
 
 
             for i in range(2, last_state_number):
